@@ -74,8 +74,33 @@ def _style(sd):
                    bare_if=sd.get("bare_if", False))
 
 
+MODULES = ["North", "South"]
+
+
+def module_value(v, mi):
+    """constants get a different value in every module (same equation text everywhere else)"""
+    if v["tree"][0] == "num" and mi > 0:
+        return ["num", v["tree"][1] + 1.5 * mi]
+    return v["tree"]
+
+
 def build_document(case):
     names = {v["id"]: v["name"] for v in case["vars"]}
+    if case.get("modules"):
+        texts = {}
+        mods = {}
+        for mi, mname in enumerate(MODULES):
+            variables = []
+            for v in case["vars"]:
+                stl = _style(dict(v["style"]))
+                tree = module_value(v, mi)
+                txt = print_with_quotes(tree, stl, dict(names))
+                texts[v["id"]] = txt
+                variables.append({"kind": "aux", "name": decl_shape(v["name"], v["shape"]), "eqn": txt})
+            mods[mname] = variables
+        last = case["vars"][-1]
+        main = [{"kind": "aux", "name": "grand total", "eqn": " + ".join("%s.%s" % (m, last["name"].replace(" ", "_")) for m in MODULES)}]
+        return X.document_modules(main, mods, case["start"], case["stop"], case["dt_spec"]), texts
     variables = []
     texts = {}
     for v in case["vars"]:
@@ -161,10 +186,13 @@ def _check_compiled(case, xml, texts, start, dt, stop, mutated, info, vs, evcap)
         info["warning"] = warns[0][:200]
         return info, vs
     # reference values
-    for ti, t in enumerate((start, float(repr(start + dt)))):
+    mods = MODULES if case.get("modules") else [None]
+    for ti, (t, mname) in enumerate([(tt, mm) for tt in (start, float(repr(start + dt))) for mm in mods]):
         env = {}
-        for v in case["vars"]:
-            key = X.xkey(v["name"])
+        mi = mods.index(mname)
+        for v0 in case["vars"]:
+            v = dict(v0, tree=module_value(v0, mi)) if mname else v0
+            key = X.xkey(v["name"]) if not mname else mname.lower() + "." + X.xkey(v["name"])
             want = None
             if not v.get("mutation"):
                 try:
@@ -204,9 +232,9 @@ def _check_compiled(case, xml, texts, start, dt, stop, mutated, info, vs, evcap)
                 info["warning"] = evcap.records[0][:200]
                 return info, []
             if not E.close(got, want, 1e-9):
-                vs.append(Violation(_signature(v["tree"], env, t, dt, start, stop, model, case),
-                                    "variable %r = %r (tree %s) evaluates to %r at t=%r, XMILE meaning %r; style %r"
-                                    % (v["name"], texts[v["id"]], E.show(v["tree"]), got, t, want, v["style"])))
+                vs.append(Violation(("module:" if mname else "") + _signature(v["tree"], env, t, dt, start, stop, model, case),
+                                    "variable %r%s = %r (tree %s) evaluates to %r at t=%r, XMILE meaning %r; style %r"
+                                    % (v["name"], (" of module " + mname) if mname else "", texts[v["id"]], E.show(v["tree"]), got, t, want, v["style"])))
         if vs:
             break
     out = {}
@@ -236,7 +264,7 @@ def _signature(tree, env, t, dt, start, stop, model, case):
 
 # ---------------------------------------------------------------------------
 
-NUMS = [0, 1, 2, 3, 4, 5, 10, 0.5, 0.25, 1.5, 2.5, 7, 100, 0.1]
+NUMS = [0, 1, 2, 3, 4, 5, 10, 0.5, 0.25, 1.5, 2.5, 7, 100, 0.1, 1234567, 3.14159265, 6.9999999, 10000019, 0.000123456, 2020.125]
 
 
 def doc_strategy(max_depth=3, mutants=False):
@@ -324,7 +352,10 @@ def doc_strategy(max_depth=3, mutants=False):
             # variables after the mutant must not depend on it
             for v in vars_[k + 1:]:
                 v["tree"] = _strip_ref(v["tree"], vars_[k]["id"])
-        return {"vars": vars_, "start": start, "stop": stop, "dt_spec": dt_spec}
+        case = {"vars": vars_, "start": start, "stop": stop, "dt_spec": dt_spec}
+        if not mutants and draw(st.integers(0, 4)) == 0:
+            case["modules"] = True
+        return case
     return build()
 
 
@@ -351,6 +382,8 @@ def _body(ctx):
         ctx.extra["disagreements_checked"] += info["comparisons"]
         ctx.extra["mutants_loud"] += info["loud"]
         labels = [info["status"].split(":")[0] + (":" + info["status"].split(":")[-1] if ":" in info["status"] else "")]
+        if case.get("modules"):
+            labels.append("two-modules")
         if info["mutants"]:
             labels.append("with-mutant:" + [v for v in case["vars"] if v.get("mutation")][0]["mutation"][0])
         xml, texts = build_document(case)
